@@ -1,6 +1,7 @@
 package eng
 
 import (
+	"bufio"
 	"bytes"
 	"encoding/csv"
 	"fmt"
@@ -34,10 +35,13 @@ type c08Scn struct {
 	Side bool `json:"side,omitempty"`
 	// Via: how the records are obtained: "" (pattern-action main loop), "getline" (plain getline in
 	// a BEGIN loop over the main input), "getfile" (getline <"f0" in a BEGIN loop; Where must be "file")
-	Via  string        `json:"via,omitempty"`
-	Data core.Bytes    `json:"data,omitempty"`
-	D    core.Delivery `json:"delivery"`
-	Enum string        `json:"enum,omitempty"`
+	Via string `json:"via,omitempty"`
+	// Split > 0 (Where "file", main loop, no header): the data is two operands, f0 = Data[:Split]
+	// and f1 = Data[Split:], each starting with a byte-order mark when BOM is set
+	Split int           `json:"split,omitempty"`
+	Data  core.Bytes    `json:"data,omitempty"`
+	D     core.Delivery `json:"delivery"`
+	Enum  string        `json:"enum,omitempty"`
 	// round trip
 	Rows   [][]core.Bytes `json:"rows,omitempty"`
 	Writer string         `json:"writer,omitempty"` // print | rebuild
@@ -46,6 +50,8 @@ type c08Scn struct {
 	WarmMode string `json:"warm_mode,omitempty"`
 	// ToFile: the writer prints to a file (print ... > "out") instead of standard output
 	ToFile bool `json:"to_file,omitempty"`
+	// WBuf > 0: the writer's Config.Output is a real *bufio.Writer of this size around the sink
+	WBuf int `json:"wbuf,omitempty"`
 }
 
 type c08Rec struct {
@@ -188,6 +194,9 @@ func (c08Engine) Gen(r *core.Rand, tier string, i int) any {
 		}
 		sc.ToFile = r.Chance(1, 4)
 		if r.Chance(1, 4) {
+			sc.WBuf = core.Pick(r, []int{16, 64, 1000, 4096, 8192})
+		}
+		if r.Chance(1, 4) {
 			sc.Via = "getline"
 		}
 		sep := string(c08SepRune(sc))
@@ -257,6 +266,9 @@ func (c08Engine) Gen(r *core.Rand, tier string, i int) any {
 		data = data[:maxLen]
 	}
 	sc.Data = data
+	if sc.Where == "file" && sc.Via == "" && !sc.Header && !sc.Side && len(data) > 1 && r.Chance(1, 2) {
+		sc.Split = r.Range(1, len(data)-1)
+	}
 	if sc.Enum == "" {
 		total := len(data)
 		if sc.BOM {
@@ -374,11 +386,23 @@ func c08ExecRead(sc *c08Scn, data []byte, d core.Delivery, nm string, log *core.
 			core.Fatal("C08: simfs: %v", err)
 		}
 		defer fs.Remove()
-		_ = fs.Put("f0", data)
+		if sc.Split > 0 && sc.Split < len(sc.Data) {
+			bom := []byte{}
+			if sc.BOM {
+				bom = []byte{0xEF, 0xBB, 0xBF}
+			}
+			_ = fs.Put("f0", append(append([]byte{}, bom...), sc.Data[:sc.Split]...))
+			_ = fs.Put("f1", append(append([]byte{}, bom...), sc.Data[sc.Split:]...))
+		} else {
+			_ = fs.Put("f0", data)
+		}
 		_ = fs.Put("side", []byte("s1,s2,s3\nt1,t2\n\"u,1\",u2,u3,u4\n"))
 		cfg.OpenFile = fs.Open
 		if sc.Via != "getfile" {
 			cfg.Args = []string{"f0"}
+			if sc.Split > 0 && sc.Split < len(sc.Data) {
+				cfg.Args = []string{"f0", "f1"}
+			}
 		}
 		interp.VerifWrapReader = func(r io.Reader) io.Reader {
 			if shaped != nil {
@@ -534,7 +558,7 @@ func (e c08Engine) Run(scAny any, keep bool) core.Outcome {
 	var out core.Outcome
 	data := sc.input()
 	desc := func(d core.Delivery) string {
-		return fmt.Sprintf("mode=%q header=%v bom=%v via_vars=%v where=%s%s data=%q chunks=%v eof_with_data=%v", c08ModeString(sc, true), sc.Header, sc.BOM, sc.ViaVars, sc.Where, c08ViaString(sc), string(sc.Data), clipInts(d.Chunks), d.EOFWithData)
+		return fmt.Sprintf("mode=%q header=%v bom=%v via_vars=%v where=%s%s%s data=%q chunks=%v eof_with_data=%v", c08ModeString(sc, true), sc.Header, sc.BOM, sc.ViaVars, sc.Where, c08ViaString(sc), c08SplitString(sc), string(sc.Data), clipInts(d.Chunks), d.EOFWithData)
 	}
 	if !c08Valid(sc) {
 		obs := c08ExecRead(sc, data, core.Delivery{}, "", core.NewLog(false))
@@ -549,6 +573,21 @@ func (e c08Engine) Run(scAny any, keep bool) core.Outcome {
 		refData = refData[3:] // the data itself begins with a byte-order mark
 	}
 	ref, refErr := c08Reference(sc, refData)
+	if sc.Where == "file" && sc.Split > 0 && sc.Split < len(sc.Data) {
+		// two files: each is an input of its own (its own leading byte-order mark, its own end)
+		strip := func(b []byte) []byte {
+			if !sc.BOM && bytes.HasPrefix(b, []byte{0xEF, 0xBB, 0xBF}) {
+				return b[3:]
+			}
+			return b
+		}
+		r0, e0 := c08Reference(sc, strip(sc.Data[:sc.Split]))
+		r1, e1 := c08Reference(sc, strip(sc.Data[sc.Split:]))
+		ref, refErr = append(r0, r1...), e0
+		if refErr == nil {
+			refErr = e1
+		}
+	}
 	// header name to look up with @name: the first name that is unique in the header
 	nm := ""
 	if sc.Header && len(ref) > 0 {
@@ -605,6 +644,13 @@ func (e c08Engine) Run(scAny any, keep bool) core.Outcome {
 	}
 	out.Fail = runOne(sc.D)
 	return out
+}
+
+func c08SplitString(sc *c08Scn) string {
+	if sc.Where == "file" && sc.Split > 0 && sc.Split < len(sc.Data) {
+		return fmt.Sprintf(" two_files_split_at=%d", sc.Split)
+	}
+	return ""
 }
 
 func c08ViaString(sc *c08Scn) string {
@@ -742,7 +788,7 @@ func c08Check(sc *c08Scn, d core.Delivery, obs, base *c08Obs, ref []c08RefRec, r
 func c08RunRoundTrip(sc *c08Scn, keep bool) core.Outcome {
 	var out core.Outcome
 	log := core.NewLog(keep)
-	desc := fmt.Sprintf("mode=%q writer=%s to_file=%v crlf=%v via_vars=%v%s rows=%q", c08ModeString(sc, false), sc.Writer, sc.ToFile, sc.CRLF, sc.ViaVars, c08ViaString(sc), sc.Rows)
+	desc := fmt.Sprintf("mode=%q writer=%s to_file=%v wbuf=%d crlf=%v via_vars=%v%s rows=%q", c08ModeString(sc, false), sc.Writer, sc.ToFile, sc.WBuf, sc.CRLF, sc.ViaVars, c08ViaString(sc), sc.Rows)
 	if !c08Valid(sc) {
 		return out
 	}
@@ -781,6 +827,9 @@ func c08RunRoundTrip(sc *c08Scn, keep bool) core.Outcome {
 	cfg := &interp.Config{Stdin: nullFile(), Output: sink, Error: io.Discard, Funcs: c08funcs, Environ: []string{}, NewlineOutput: interp.RawNewlineMode}
 	if sc.CRLF {
 		cfg.NewlineOutput = interp.CRLFNewlineMode
+	}
+	if sc.WBuf > 0 {
+		cfg.Output = bufio.NewWriterSize(sink, sc.WBuf) // the interpreter flushes a *bufio.Writer at the end of the run
 	}
 	if sc.ViaVars {
 		cfg.Vars = []string{"OUTPUTMODE", c08ModeString(sc, false)}
@@ -918,8 +967,14 @@ func (c08Engine) Shrink(scAny any) []any {
 	if sc.Via != "" {
 		add(func(c *c08Scn) { c.Via = "" })
 	}
+	if sc.Split > 0 {
+		add(func(c *c08Scn) { c.Split = 0 })
+	}
 	if sc.ToFile {
 		add(func(c *c08Scn) { c.ToFile = false })
+	}
+	if sc.WBuf > 0 {
+		add(func(c *c08Scn) { c.WBuf = 0 })
 	}
 	if sc.Side {
 		add(func(c *c08Scn) { c.Side = false })
